@@ -98,6 +98,7 @@ pub fn worker(tmp: &Path, timeout_s: u64, f: impl FnOnce(&mut dyn FnMut(String))
         unsafe { libc::_exit(if r.is_ok() { 0 } else { 101 }) };
     }
     let start = std::time::Instant::now();
+    let timeout_s = timeout_s * load_factor();
     let mut status = 0;
     let how;
     loop {
@@ -126,12 +127,36 @@ pub fn worker(tmp: &Path, timeout_s: u64, f: impl FnOnce(&mut dyn FnMut(String))
 /// Returns, per session, (lines, how it ended).
 pub fn run_sessions<S: Sync>(sessions: &[S], tmpdir: &Path, tag: &str, par: usize, timeout_s: u64,
                              f: impl Fn(&S, &mut dyn FnMut(String))) -> Vec<(Vec<String>, String)> {
+    // The watchdog is a wall-clock limit, so it is stretched by the machine's load (a session that takes 2 s on an idle
+    // machine was seen to take > 25 s at load average 80), and a session that still times out is run ONCE more, alone,
+    // with twice the limit: only a session that hangs both times is reported as hung. A hang is never dropped.
+    let timeout_s = timeout_s * load_factor();
+    let mut results = run_sessions_once(sessions, &(0..sessions.len()).collect::<Vec<_>>(), tmpdir, tag, par, timeout_s, &f);
+    let again: Vec<usize> = (0..sessions.len()).filter(|&i| results[i].1 == "timeout").collect();
+    if !again.is_empty() && std::env::var("VERIF_NO_RETRY").is_err() {
+        let second = run_sessions_once(sessions, &again, tmpdir, tag, 1, timeout_s * 2, &f);
+        for (k, &i) in again.iter().enumerate() { results[i] = second[k].clone(); }
+    }
+    results
+}
+
+/// 1 on an idle machine, up to 8 when the run queue is much longer than the number of cores
+pub fn load_factor() -> u64 {
+    let load = std::fs::read_to_string("/proc/loadavg").ok()
+        .and_then(|s| s.split(' ').next().and_then(|v| v.parse::<f64>().ok())).unwrap_or(0.0);
+    let cores = std::thread::available_parallelism().map(|n| n.get()).unwrap_or(1) as f64;
+    ((load / cores).ceil() as u64).clamp(1, 8)
+}
+
+fn run_sessions_once<S: Sync>(all: &[S], which: &[usize], tmpdir: &Path, tag: &str, par: usize, timeout_s: u64,
+                             f: &impl Fn(&S, &mut dyn FnMut(String))) -> Vec<(Vec<String>, String)> {
+    let sessions: Vec<&S> = which.iter().map(|&i| &all[i]).collect();
     let mut results: Vec<Option<(Vec<String>, String)>> = (0..sessions.len()).map(|_| None).collect();
     let mut running: Vec<(i32, usize, std::time::Instant, PathBuf)> = vec![];
     let mut next = 0;
     while next < sessions.len() || !running.is_empty() {
         while next < sessions.len() && running.len() < par {
-            let tmp = tmpdir.join(format!("{tag}-worker-{next}.txt"));
+            let tmp = tmpdir.join(format!("{tag}-worker-{}.txt", which[next]));
             let _ = std::fs::remove_file(&tmp);
             let pid = unsafe { libc::fork() };
             if pid == 0 {
@@ -140,7 +165,7 @@ pub fn run_sessions<S: Sync>(sessions: &[S], tmpdir: &Path, tag: &str, par: usiz
                 let mut w = std::io::LineWriter::new(file);
                 let mut emit = |l: String| { writeln!(w, "{l}").unwrap(); w.flush().unwrap(); };
                 if std::env::var("VERIF_SHOW_PANIC").is_err() { std::panic::set_hook(Box::new(|_| {})); }
-                let r = std::panic::catch_unwind(std::panic::AssertUnwindSafe(|| f(&sessions[next], &mut emit)));
+                let r = std::panic::catch_unwind(std::panic::AssertUnwindSafe(|| f(sessions[next], &mut emit)));
                 unsafe { libc::_exit(if r.is_ok() { 0 } else { 101 }) };
             }
             running.push((pid, next, std::time::Instant::now(), tmp));
